@@ -439,6 +439,156 @@ fn op_strings(run: &Run, name: &str, pts: &[(i32, i32)], depth: usize, qs: &[P])
     });
 }
 
+
+// ---------------------------------------------------------------- queries a few ulps off a vertex
+
+/// exact value of an f32 in units of 2^-40 (coordinates of this family are below 2^20 in
+/// magnitude and multiples of 2^-40)
+fn fx(v: f32) -> i128 {
+    (v as f64 * (1u64 << 40) as f64) as i128
+}
+
+/// exact answer for a closed polygon given in f32 and a query point given in f32: Some(true) on an
+/// edge, otherwise by the winding number
+fn exact_contains(pts: &[(f32, f32)], rule: Rule, q: (f32, f32)) -> bool {
+    let (qx, qy) = (fx(q.0), fx(q.1));
+    let n = pts.len();
+    let mut w = 0i32;
+    for i in 0..n {
+        let (a, b) = (pts[i], pts[(i + 1) % n]);
+        let (x1, y1, x2, y2) = (fx(a.0), fx(a.1), fx(b.0), fx(b.1));
+        let cross = (x2 - x1) * (qy - y1) - (y2 - y1) * (qx - x1);
+        if cross == 0 && qx >= x1.min(x2) && qx <= x1.max(x2) && qy >= y1.min(y2) && qy <= y1.max(y2) {
+            return true;
+        }
+        if y1 <= qy && qy < y2 {
+            if cross < 0 {
+                w -= 1;
+            }
+        } else if y2 <= qy && qy < y1 {
+            if cross > 0 {
+                w += 1;
+            }
+        }
+    }
+    rule.inside(w)
+}
+
+fn bits_list(v: &[(f32, f32)]) -> String {
+    v.iter().map(|p| format!("{:08x}:{:08x}", p.0.to_bits(), p.1.to_bits())).collect::<Vec<_>>().join(",")
+}
+
+fn ulp_case(pts: &[(f32, f32)], rule: Rule, q: (f32, f32)) -> Result<bool, Violation> {
+    let case = format!("ulp=1 rule={} qb={:08x}:{:08x} pts={}", if rule == Rule::NonZero { "nz" } else { "eo" }, q.0.to_bits(), q.1.to_bits(), bits_list(pts));
+    let mut pb = PathBuilder::new();
+    for (i, p) in pts.iter().enumerate() {
+        if i == 0 {
+            pb.move_to(p.0, p.1)
+        } else {
+            pb.line_to(p.0, p.1)
+        }
+    }
+    pb.close();
+    let mut path = pb.finish();
+    path.winding = if rule == Rule::NonZero { Winding::NonZero } else { Winding::EvenOdd };
+    let got = guard(|| path.contains_point(0.1, q.0, q.1)).map_err(|p| Violation::new("contains_point/panic", case.clone(), p))?;
+    let exp = exact_contains(pts, rule, q);
+    if got != exp {
+        return Err(Violation::new(format!("contains_point/{}", if exp { "inside-point-reported-outside" } else { "outside-point-reported-inside" }), case, format!("polygon {:?}: contains_point({:?}, {:?}) = {}, exact rational model = {}", pts, q.0, q.1, got, exp)));
+    }
+    Ok(got)
+}
+
+fn step(v: f32, k: i32) -> f32 {
+    let mut b = v;
+    for _ in 0..k.abs() {
+        let bits = b.to_bits();
+        // v > 0 in this family
+        b = f32::from_bits(if k > 0 { bits + 1 } else { bits - 1 });
+    }
+    b
+}
+
+fn ulp_family(run: &Run) {
+    // kites and triangles with decimal coordinates; some with a far end of the opposite sign
+    let polys: Vec<Vec<(f32, f32)>> = vec![
+        vec![(12.0, 0.6), (22.0, 20.2), (12.0, 40.7), (2.0, 2.3)],
+        vec![(12.0, -7.4), (22.0, 20.2), (12.0, 40.7), (2.0, 2.3)],
+        vec![(3.1, 2.3), (30.7, 9.9), (17.3, 38.6)],
+        vec![(5.3, 1.7), (28.9, 3.3), (33.1, 27.7), (4.9, 31.1)],
+        vec![(16.0, 3.0), (31.0, -5.0), (29.0, 30.0), (2.0, 25.0), (3.0, -5.0)],
+    ];
+    run.bound("queries a few ulps off a vertex", format!("{} polygons (decimal coordinates, some with ends of opposite sign) x both vertex orders x every start vertex x 2 rules x for every vertex V: y in {{V.y, 1..4 floats above and below}} x x in {{V.x -+ 1.5, -+ 8.5, -40, 60}}; exact rational model", polys.len()));
+    run.par(polys.len() * 2, |s, l| {
+        let mut base = polys[s / 2].clone();
+        if s % 2 == 1 {
+            base.reverse();
+        }
+        for rot in 0..base.len() {
+            let mut pts = base.clone();
+            pts.rotate_left(rot);
+            for rule in [Rule::NonZero, Rule::EvenOdd] {
+                let mut bits = 0u64;
+                let mut nin = 0;
+                for v in &base {
+                    if !(v.1 > 0.0) {
+                        continue;
+                    }
+                    for k in -4..=4 {
+                        let y = step(v.1, k);
+                        for x in [v.0 - 1.5, v.0 + 1.5, v.0 - 8.5, v.0 + 8.5, -40.0, 60.0] {
+                            l.transitions += 1;
+                            match ulp_case(&pts, rule, (x, y)) {
+                                Ok(b) => {
+                                    bits = bits.rotate_left(3) ^ b as u64;
+                                    nin += b as u32;
+                                }
+                                Err(v) => {
+                                    run.report(85_000 + s, v);
+                                    return;
+                                }
+                            }
+                        }
+                    }
+                }
+                l.states += 1;
+                l.traces += 1;
+                l.evals += 1;
+                if nin > 0 {
+                    l.nontrivial += 1;
+                }
+                l.outcome(bits);
+            }
+        }
+    });
+}
+
+/// long edges on a large lattice: every lattice point of a sloped edge (where the two products of
+/// the side test need more than 24 bits) and its neighbours on either side
+fn long_edges(run: &Run) {
+    let slopes: [(i32, i32, i32); 4] = [(1, 1, 10002), (3, 7, 3000), (7, 3, 3000), (5, 9, 2001)];
+    run.bound("long edges on a large lattice", "right triangles whose sloped side runs from (0,0) to K*(sx,sy) half-steps for (sx,sy,K) in [(1,1,10002), (3,7,3000), (7,3,3000), (5,9,2001)], both vertex orders, mirrored into negative coordinates x 2 rules x every lattice point of the sloped side and its two horizontal neighbours".to_string());
+    run.par(slopes.len() * 4, |s, l| {
+        let (sx, sy, k) = slopes[s / 4];
+        let (rev, mir) = (s % 2 == 1, (s / 2) % 2 == 1);
+        let m = if mir { -1 } else { 1 };
+        let mut v = vec![(0, 0), (m * k * sx, m * k * sy), (0, m * k * sy)];
+        if rev {
+            v.reverse();
+        }
+        let ops = vec![QOp::M(v[0].0, v[0].1), QOp::L(v[1].0, v[1].1), QOp::L(v[2].0, v[2].1), QOp::Z];
+        let mut qs: Vec<P> = Vec::new();
+        for j in 0..=k {
+            let (x, y) = ((m * j * sx) as i64, (m * j * sy) as i64);
+            qs.push((x, y));
+            qs.push((x - 1, y));
+            qs.push((x + 1, y));
+        }
+        l.states += 1;
+        eval_path(run, 86_000 + s, l, &ops, &qs, false);
+    });
+}
+
 impl Check for C17 {
     fn id(&self) -> &'static str {
         "C17"
@@ -456,6 +606,8 @@ impl Check for C17 {
         let g4 = grid_pts(4);
         let g3 = grid_pts(3);
         polygons(run, "triangles 5x5", &g5, 3, false, &qs, true);
+        long_edges(run);
+        ulp_family(run);
         // straight paths do not depend on the tolerance, however large or small
         {
             let tols = [0.001f32, 3.0, 100.0];
@@ -559,6 +711,15 @@ impl Check for C17 {
         let m = kv(case);
         if m.contains_key("curve") {
             return curve_replay(&m);
+        }
+        if m.contains_key("ulp") {
+            let pb = |t: &str| -> Result<(f32, f32), String> {
+                let (a, b) = t.split_once(':').ok_or("bad point")?;
+                Ok((f32::from_bits(u32::from_str_radix(a, 16).map_err(|e| e.to_string())?), f32::from_bits(u32::from_str_radix(b, 16).map_err(|e| e.to_string())?)))
+            };
+            let pts: Vec<(f32, f32)> = kv_s(&m, "pts")?.split(',').map(pb).collect::<Result<_, _>>()?;
+            let rule = if kv_s(&m, "rule")? == "nz" { Rule::NonZero } else { Rule::EvenOdd };
+            return Ok(ulp_case(&pts, rule, pb(kv_s(&m, "qb")?)?).err());
         }
         let ops = parse_ops(kv_s(&m, "ops")?)?;
         let rule = if kv_s(&m, "rule")? == "nz" { Rule::NonZero } else { Rule::EvenOdd };
